@@ -1,0 +1,33 @@
+//go:build verif
+
+// Contracts for deductive verification (comment-only; read by /verif/govc, never compiled into the product).
+
+package template
+
+// ---------------------------------------------------------------------------------------------------------
+// C14: which values each template-evaluation stage can see. The four layers are, lowest to highest: defaults, vars,
+// user vars (each flattened child-over-parent: gera.flatHas/flatVal) and the iterator locals. A role's OWN level of a
+// kind becomes visible at the stage given by the table in the Stage comment block; before that only the ancestors'
+// levels of that kind are.
+//
+//   own defaults from STAGE2, own vars from STAGE3, own user vars from STAGE4; locals always.
+
+//@ ghost pure func layerHas(w *gera.WrapMap, own bool, k string) bool = w != nil && (if own then gera.flatHas(iface(w), k) else gera.flatHas(w.parent, k))
+//@ ghost pure func layerVal(w *gera.WrapMap, own bool, k string) string = if own then gera.flatVal(iface(w), k) else gera.flatVal(w.parent, k)
+
+//@ func (vs *VarStack) consolidated(stage Stage) (consolidatedStack map[string]string, err error)
+//@   property C14
+//@   modifies nothing
+//@   requires vs != nil
+//@   ensures err == nil && (stage == STAGE0 || stage == STAGE1) ==> forall k string :: old((k in vs.Locals) || layerHas(vs.UserVars, false, k) || layerHas(vs.Vars, false, k) || layerHas(vs.Defaults, false, k)) ==> (k in consolidatedStack)
+//@   ensures err == nil && (stage == STAGE0 || stage == STAGE1) ==> forall k string :: (k in consolidatedStack) ==> old((k in vs.Locals) || layerHas(vs.UserVars, false, k) || layerHas(vs.Vars, false, k) || layerHas(vs.Defaults, false, k))
+//@   ensures err == nil && (stage == STAGE0 || stage == STAGE1) ==> forall k string :: (k in consolidatedStack) ==> consolidatedStack[k] == old(if (k in vs.Locals) then vs.Locals[k] else if layerHas(vs.UserVars, false, k) then layerVal(vs.UserVars, false, k) else if layerHas(vs.Vars, false, k) then layerVal(vs.Vars, false, k) else layerVal(vs.Defaults, false, k))
+//@   ensures err == nil && stage == STAGE2 ==> forall k string :: old((k in vs.Locals) || layerHas(vs.UserVars, false, k) || layerHas(vs.Vars, false, k) || layerHas(vs.Defaults, true, k)) ==> (k in consolidatedStack)
+//@   ensures err == nil && stage == STAGE2 ==> forall k string :: (k in consolidatedStack) ==> old((k in vs.Locals) || layerHas(vs.UserVars, false, k) || layerHas(vs.Vars, false, k) || layerHas(vs.Defaults, true, k))
+//@   ensures err == nil && stage == STAGE2 ==> forall k string :: (k in consolidatedStack) ==> consolidatedStack[k] == old(if (k in vs.Locals) then vs.Locals[k] else if layerHas(vs.UserVars, false, k) then layerVal(vs.UserVars, false, k) else if layerHas(vs.Vars, false, k) then layerVal(vs.Vars, false, k) else layerVal(vs.Defaults, true, k))
+//@   ensures err == nil && stage == STAGE3 ==> forall k string :: old((k in vs.Locals) || layerHas(vs.UserVars, false, k) || layerHas(vs.Vars, true, k) || layerHas(vs.Defaults, true, k)) ==> (k in consolidatedStack)
+//@   ensures err == nil && stage == STAGE3 ==> forall k string :: (k in consolidatedStack) ==> old((k in vs.Locals) || layerHas(vs.UserVars, false, k) || layerHas(vs.Vars, true, k) || layerHas(vs.Defaults, true, k))
+//@   ensures err == nil && stage == STAGE3 ==> forall k string :: (k in consolidatedStack) ==> consolidatedStack[k] == old(if (k in vs.Locals) then vs.Locals[k] else if layerHas(vs.UserVars, false, k) then layerVal(vs.UserVars, false, k) else if layerHas(vs.Vars, true, k) then layerVal(vs.Vars, true, k) else layerVal(vs.Defaults, true, k))
+//@   ensures err == nil && (stage == STAGE4 || stage == STAGE5) ==> forall k string :: old((k in vs.Locals) || layerHas(vs.UserVars, true, k) || layerHas(vs.Vars, true, k) || layerHas(vs.Defaults, true, k)) ==> (k in consolidatedStack)
+//@   ensures err == nil && (stage == STAGE4 || stage == STAGE5) ==> forall k string :: (k in consolidatedStack) ==> old((k in vs.Locals) || layerHas(vs.UserVars, true, k) || layerHas(vs.Vars, true, k) || layerHas(vs.Defaults, true, k))
+//@   ensures err == nil && (stage == STAGE4 || stage == STAGE5) ==> forall k string :: (k in consolidatedStack) ==> consolidatedStack[k] == old(if (k in vs.Locals) then vs.Locals[k] else if layerHas(vs.UserVars, true, k) then layerVal(vs.UserVars, true, k) else if layerHas(vs.Vars, true, k) then layerVal(vs.Vars, true, k) else layerVal(vs.Defaults, true, k))
